@@ -703,4 +703,44 @@ def r51_offsets_one_by_one(ctx):
                "in the operator layer (%d methods)" % len(oper.methods), P)
 
 
+def r55_sign_on_every_path(ctx):
+    """date_diff hands its result over as (|difference|, sign); whatever
+    date_diff_format returns starts with that sign, with or without a print
+    format (decision table: the leftmost operand of every returned
+    concatenation is the sign parameter)."""
+    rep = ctx.rep
+    rule = "R55.sign-prefix"
+    P = ("C19",)
+    from ..dtable import explore
+    oper = ctx.model.cls("DateTimeOperator")
+    f = oper.methods.get("date_diff_format")
+    rep.need_anchor(rule, "formatting paths")
+    if f is None:
+        raise AnalysisError("DateTimeOperator.date_diff_format not found")
+    params = f.call_params
+    if len(params) < 3:
+        raise AnalysisError("date_diff_format: (print_format, duration, "
+                            "sign) parameters not found")
+    sign = params[2]
+    bad = []
+    n = 0
+    for p in explore(f.node.body):
+        if p.outcome != "return" or p.value is None:
+            continue
+        n += 1
+        rep.anchor(rule, "formatting paths")
+        e = p.value
+        while isinstance(e, ast.BinOp) and isinstance(e.op, ast.Add):
+            e = e.left
+        if not (isinstance(e, ast.Name) and e.id == sign):
+            bad.append("%s under %s" % (U(p.value)[:40],
+                                        p.when()[:50] or "no condition"))
+    rep.check(not bad and n > 0, rule, ctx.fkey(f, None, "every-return"),
+              f.loc(), "all %d returns of date_diff_format start with the "
+              "sign" % n,
+              "date_diff_format returns %s without the sign in front: a "
+              "negative difference is printed as a positive one" % bad, P)
+
+
 RULES["R51"] = r51_offsets_one_by_one
+RULES["R55"] = r55_sign_on_every_path
